@@ -259,7 +259,7 @@ func pickURL(rng *rand.Rand) string {
 }
 
 // exchange runs one Dialer.Upgrade against the scripted peer.
-func exchange(c *mon.C, cfg DCfg, ustr string, choice map[string]string, trailK int, delivery int, viaDial bool, keys map[string]bool) bool {
+func exchange(c *mon.C, cfg DCfg, ustr string, choice map[string]string, trailK int, delivery int, viaDial bool, keys map[string]bool, base ...*ws.Dialer) bool {
 	c.Count(1)
 	u, err := url.ParseRequestURI(ustr)
 	if err != nil {
@@ -267,6 +267,10 @@ func exchange(c *mon.C, cfg DCfg, ustr string, choice map[string]string, trailK 
 		return true
 	}
 	d := buildDialer(cfg)
+	if len(base) > 0 {
+		// the application's one Dialer value, used again: Dial / Upgrade have value receivers, the slices are shared
+		d = *base[0]
+	}
 	var hdrSeen [][2]string
 	var statusSeen []int
 	if cfg.Callbacks > 0 {
@@ -595,6 +599,51 @@ func subTrailing() mon.Sub {
 	}
 }
 
+// subReuse: ONE Dialer value (a package-level variable of the application, a reconnect loop) lives through several
+// handshakes whose servers answer differently - other parameters for the accepted extension, another subprotocol, a
+// refusal in between. Every request carries the CONFIGURED offer (checkRequest), and the configuration the
+// application wrote down is what it still reads afterwards.
+func subReuse() mon.Sub {
+	reuseExts := [][]string{
+		{"permessage-deflate; client_max_window_bits; server_max_window_bits=10", "foo; a=1"},
+		{"permessage-deflate; client_max_window_bits=15; server_max_window_bits=12; client_no_context_takeover"},
+		{"foo; a=1; b", "permessage-deflate"},
+	}
+	return mon.Sub{
+		Name: "dialer-reuse", Required: true,
+		N: func(t string) int {
+			if t == "thorough" {
+				return 6000
+			}
+			return 300
+		},
+		Do: func(c *mon.C) {
+			cfg := DCfg{Protocols: protoLists[1+c.I%3], Exts: reuseExts[c.I%len(reuseExts)], Header: hdrKinds[c.I%5], RBuf: bufSizes[c.I%len(bufSizes)], WBuf: bufSizes[c.I/2%len(bufSizes)]}
+			d := buildDialer(cfg)
+			snap := fmt.Sprintf("%q %v", d.Protocols, d.Extensions)
+			keys := map[string]bool{}
+			answers := []string{"first-with-params", "first", "all", "none", "unoffered", "offered-then-unoffered"}
+			for round := 0; round < 2+c.I%3; round++ {
+				choice := map[string]string{"extensions": answers[(c.I+round*5)%len(answers)], "protocol": []string{"first", "last", "none"}[(c.I+round)%3]}
+				if c.Rng.Intn(4) == 0 {
+					f := gen.RespFactors[c.Rng.Intn(len(gen.RespFactors))]
+					if f != "extensions" && f != "protocol" {
+						vs := gen.RespVariants[f]
+						choice[f] = vs[c.Rng.Intn(len(vs))]
+					}
+				}
+				if !exchange(c, cfg, urls[(c.I+round)%len(urls)], choice, c.Rng.Intn(4), c.Rng.Intn(4), round%2 == 1, keys, &d) {
+					return
+				}
+				if now := fmt.Sprintf("%q %v", d.Protocols, d.Extensions); now != snap {
+					c.Fail("reuse/configuration-changed", fmt.Sprintf("after handshake %d the application's Dialer holds %s; it was configured as %s", round+1, now, snap), map[string]interface{}{"config": cfg.String(), "round": round, "answer": choice["extensions"]})
+					return
+				}
+			}
+		},
+	}
+}
+
 func subRandom() mon.Sub {
 	return mon.Sub{
 		Name: "random", Required: true,
@@ -623,8 +672,8 @@ func main() {
 		Property: "C10",
 		Level:    "exploration",
 		Rule: "a scripted in-memory peer records the request the dialer writes (parsed by net/http: GET, request-URI, HTTP/1.1, Host or override, exactly the required headers, a fresh base64 key of 16 bytes, configured subprotocols/extensions/extra headers; NetDial address and TLS hostname for Dial) and answers with a grammar-generated response built from what it actually received (10 factors: version token, status token incl. non-digit and overflowing forms, reason, Upgrade, Connection, Sec-WebSocket-Accept, subprotocol, extensions, extra headers, line ends), followed by post-handshake bytes of length {0,1,2,100,buf-1,buf,buf+1,70000} delivered in the same read as the head, byte by byte, or under other chunk plans. " +
-			"Cases: every single-factor variant x 4 configurations x 3 URLs, every pair of non-canonical variants, valid responses x all trailing lengths x deliveries x buffer sizes x protocol lists through Upgrade and Dial, and seeded random derivations. Oracle: three-valued verdict on the derivation; reported protocol/extensions == sent; buffer-then-connection yields exactly the trailing bytes. distinct = (outcome, verdict, non-canonical variants, trailing class, delivery, config sizes).",
+			"Cases: every single-factor variant x 4 configurations x 3 URLs, every pair of non-canonical variants, valid responses x all trailing lengths x deliveries x buffer sizes x protocol lists through Upgrade and Dial, seeded random derivations, and ONE Dialer value reused for 2-4 handshakes with differently answering servers (every request carries the configured offer, the configuration is unchanged). Oracle: three-valued verdict on the derivation; reported protocol/extensions == sent; buffer-then-connection yields exactly the trailing bytes. distinct = (outcome, verdict, non-canonical variants, trailing class, delivery, config sizes).",
 		Assumptions: []string{"net/http.ReadRequest is the independent request parser", "OPEN: LF-only line ends, duplicated valid headers, Connection token list in a response, two subprotocol headers / empty / list values, version tokens HTTP/1.01 and http/1.1", "TLS hostname for IPv6 literals is not constrained"},
-		Subs:        []mon.Sub{subSingle(), subPairs(), subTrailing(), subRandom()},
+		Subs:        []mon.Sub{subSingle(), subPairs(), subTrailing(), subRandom(), subReuse()},
 	})
 }
